@@ -8,6 +8,7 @@ package c05
 
 import (
 	"bytes"
+	"crypto/sha1"
 	"encoding/hex"
 	"fmt"
 	"strings"
@@ -168,10 +169,24 @@ func TestBACInterop(t *testing.T) {
 		if len(m.DocNo) > 9 && m.Fields.Opt1 != "" {
 			evid.Count("interop-extended-docno-plus-optional-data", 1)
 		}
+		// the password object outlives the session: what it yields as key material must be the ICAO
+		// value before AND after it was used for an authentication (and must not be disturbed when a
+		// caller scribbles over a key it was given)
+		wantKey := sha1.Sum([]byte(m.Info))
+		if k, kerr := pass.Key(); kerr != nil || !bytes.Equal(k, wantKey[:]) {
+			evid.Fail(rt, "interop-key", repro, "Password.Key() = %x (err %v), ICAO 9303-11 K = SHA-1(MRZ information) = %x", k, kerr, wantKey)
+		} else {
+			for i := range k {
+				k[i] ^= 0xA5 // the caller owns what it was handed
+			}
+		}
 		s := runBAC(m, pass, m.Info, chipRand, nil)
 		if msg := checkEstablished(s, m); msg != "" {
 			repro["libPassword"] = pass.Password
 			evid.Fail(rt, "interop", repro, "%s", msg)
+		}
+		if k, kerr := pass.Key(); kerr != nil || !bytes.Equal(k, wantKey[:]) {
+			evid.Fail(rt, "interop-key", repro, "after a BAC run with this password object Password.Key() = %x (err %v), ICAO K = %x", k, kerr, wantKey)
 		}
 	})
 }
